@@ -131,7 +131,7 @@ package jsonpath
 //@ smt (declare-fun vkind (Val) Int)
 //@ smt (declare-fun vrank (Val) Int)
 //@ smt (declare-fun paramSingleQ (Val) Bool)
-//@ smt (declare-fun QH (Val Val Val) Bool)
+//@ smt (declare-fun RH (Val Val (Array Int Val) Int Int Int) Bool)
 //@ smt (declare-fun Sel (Val Val Val) Bool)
 //@ smt (declare-fun First (Val Val Val) Val)
 //@ smt (declare-fun PV (Val Val Val) Val)
@@ -454,34 +454,43 @@ package jsonpath
 //@ spec typedList(k int, s []interface{}) bool = forall i {elemAt(s, i)} :: off(s) <= i && i < off(s) + len(s) ==> okSlot(k, elemAt(s, i))
 //@ spec allEmpty(s []interface{}) bool = forall i {elemAt(s, i)} :: off(s) <= i && i < off(s) + len(s) ==> elemAt(s, i) == emptyEntity
 
-// QH(q, root, member): the specification truth value of filter query q for one member (C09/C10).
+// RH(q, root, contents, off, len, j): the verdict of filter query q for member j of the list (contents, off, len)
+// (C09/C10).  It is a function of the list, not only of the member, because `==` between two absent paths
+// holds only when no member has the left operand.
 // holdsAt(list, j): how a computed list answers for member j (length-1 lists are whole-match verdicts).
 //@ spec holdsAt(s []interface{}, j int) bool = (len(s) == 1 ? elemAt(s, 0) : elemAt(s, j)) != emptyEntity
 //@ spec slotAt(s []interface{}, j int) any = len(s) == 1 ? elemAt(s, 0) : elemAt(s, j)
 //@ spec memberAt(cl []interface{}, j int) any = old(cl[j])
-//@ spec WFandDef(n *syntaxLogicalAnd) bool = n != nil && !paramSingleQ(n) && n.leftQuery != nil && n.rightQuery != nil && WFquery(n.leftQuery) && WFquery(n.rightQuery) && 0 <= qheight(n.leftQuery) && qheight(n.leftQuery) < qheight(n) && 0 <= qheight(n.rightQuery) && qheight(n.rightQuery) < qheight(n) && (forall r Val, c Val {QH(n, r, c)} :: QH(n, r, c) <==> (QH(n.leftQuery, r, c) && QH(n.rightQuery, r, c)))
-//@ spec WForDef(n *syntaxLogicalOr) bool = n != nil && !paramSingleQ(n) && n.leftQuery != nil && n.rightQuery != nil && WFquery(n.leftQuery) && WFquery(n.rightQuery) && 0 <= qheight(n.leftQuery) && qheight(n.leftQuery) < qheight(n) && 0 <= qheight(n.rightQuery) && qheight(n.rightQuery) < qheight(n) && (forall r Val, c Val {QH(n, r, c)} :: QH(n, r, c) <==> (QH(n.leftQuery, r, c) || QH(n.rightQuery, r, c)))
-//@ spec WFnotDef(n *syntaxLogicalNot) bool = n != nil && !paramSingleQ(n) && n.query != nil && WFquery(n.query) && 0 <= qheight(n.query) && qheight(n.query) < qheight(n) && (forall r Val, c Val {QH(n, r, c)} :: QH(n, r, c) <==> !QH(n.query, r, c))
+//@ spec RHof(q any, root any, cl []interface{}, j int) bool = RH(q, root, old(A_Val[arr(cl)]), off(cl), len(cl), j)
+//@ spec WFandDef(n *syntaxLogicalAnd) bool = n != nil && !paramSingleQ(n) && n.leftQuery != nil && n.rightQuery != nil && WFquery(n.leftQuery) && WFquery(n.rightQuery) && 0 <= qheight(n.leftQuery) && qheight(n.leftQuery) < qheight(n) && 0 <= qheight(n.rightQuery) && qheight(n.rightQuery) < qheight(n) && (forall r Val, A ArrVal, o, l, j {RH(n, r, A, o, l, j)} :: RH(n, r, A, o, l, j) <==> (RH(n.leftQuery, r, A, o, l, j) && RH(n.rightQuery, r, A, o, l, j)))
+//@ spec WForDef(n *syntaxLogicalOr) bool = n != nil && !paramSingleQ(n) && n.leftQuery != nil && n.rightQuery != nil && WFquery(n.leftQuery) && WFquery(n.rightQuery) && 0 <= qheight(n.leftQuery) && qheight(n.leftQuery) < qheight(n) && 0 <= qheight(n.rightQuery) && qheight(n.rightQuery) < qheight(n) && (forall r Val, A ArrVal, o, l, j {RH(n, r, A, o, l, j)} :: RH(n, r, A, o, l, j) <==> (RH(n.leftQuery, r, A, o, l, j) || RH(n.rightQuery, r, A, o, l, j)))
+//@ spec WFnotDef(n *syntaxLogicalNot) bool = n != nil && !paramSingleQ(n) && n.query != nil && WFquery(n.query) && 0 <= qheight(n.query) && qheight(n.query) < qheight(n) && (forall r Val, A ArrVal, o, l, j {RH(n, r, A, o, l, j)} :: RH(n, r, A, o, l, j) <==> !RH(n.query, r, A, o, l, j))
 //@ spec WFcparam(p *syntaxBasicCompareParameter, q any) bool = p != nil && p.param != nil && WFquery(p.param) && 0 <= qheight(p.param) && qheight(p.param) < qheight(q) && paramSingleQ(p.param) && (p.isLiteral ==> isType(p.param, *syntaxQueryParamLiteral) || isType(p.param, *syntaxQueryParamRoot))
-//@ spec WFcmpqDef(n *syntaxBasicCompareQuery) bool = n != nil && !paramSingleQ(n) && n.comparator != nil && WFcmp(n.comparator) && WFcparam(n.leftParam, n) && WFcparam(n.rightParam, n) && n.rightParam.isLiteral
-//@ spec WFlitDef(n *syntaxQueryParamLiteral) bool = n != nil && len(n.literal) == 1 && wf(n.literal) && RO(n.literal) && off(n.literal) == 0 && elemAt(n.literal, 0) != emptyEntity && (forall r Val, c Val {QH(n, r, c)} :: QH(n, r, c)) && (forall r Val, c Val {PV(n, r, c)} :: PV(n, r, c) == elemAt(n.literal, 0))
-//@ spec WFprootDef(n *syntaxQueryParamRoot) bool = n != nil && n.param != nil && WFnode(n.param) && 0 <= height(n.param) && height(n.param) < qheight(n) && (paramSingleQ(n) ==> chainSingle(n.param)) && (forall r Val, c Val {QH(n, r, c)} :: QH(n, r, c) <==> Sel(n.param, r, r)) && (forall r Val, c Val {PV(n, r, c)} :: PV(n, r, c) == (Sel(n.param, r, r) ? First(n.param, r, r) : emptyEntity))
-//@ spec WFpcurDef(n *syntaxQueryParamCurrentRoot) bool = n != nil && n.param != nil && WFnode(n.param) && 0 <= height(n.param) && height(n.param) < qheight(n) && (forall r Val, c Val {QH(n, r, c)} :: QH(n, r, c) <==> Sel(n.param, r, c)) && (forall r Val, c Val {PV(n, r, c)} :: PV(n, r, c) == (Sel(n.param, r, c) ? First(n.param, r, c) : emptyEntity))
+// C10: the comparison table.  opL/opR: operand values after type validation (empty = missing or of another type).
+//@ spec opL(n *syntaxBasicCompareQuery, r any, c any) any = convSlot(vkind(n.comparator), PV(n.leftParam.param, r, c))
+//@ spec opR(n *syntaxBasicCompareQuery, r any, c any) any = convSlot(vkind(n.comparator), PV(n.rightParam.param, r, c))
+//@ spec cmpTable(q any, cmp any, L any, R any, holds bool) bool = ((L != emptyEntity && R != emptyEntity) ==> (holds <==> cmpRel(cmp, L, R))) && (((L != emptyEntity) != (R != emptyEntity)) ==> !holds) && ((L == emptyEntity && R == emptyEntity && !isType(cmp, *syntaxCompareDeepEQ)) ==> !holds)
+//@ spec WFcmpqDef(n *syntaxBasicCompareQuery) bool = n != nil && !paramSingleQ(n) && n.comparator != nil && WFcmp(n.comparator) && WFcparam(n.leftParam, n) && WFcparam(n.rightParam, n) && n.rightParam.isLiteral && (forall r Val, A ArrVal, o, l, j {RH(n, r, A, o, l, j)} :: RH(n, r, A, o, l, j) <==> ((opL(n, r, A[idxOf(o, j)]) != emptyEntity && opR(n, r, A[idxOf(o, j)]) != emptyEntity && cmpRel(n.comparator, opL(n, r, A[idxOf(o, j)]), opR(n, r, A[idxOf(o, j)]))) || (isType(n.comparator, *syntaxCompareDeepEQ) && opR(n, r, A[idxOf(o, j)]) == emptyEntity && (forall j2 {PV(n.leftParam.param, r, A[idxOf(o, j2)])} :: 0 <= j2 && j2 < l ==> opL(n, r, A[idxOf(o, j2)]) == emptyEntity)))) && (forall r Val, c Val, d Val {PV(n.rightParam.param, r, c), PV(n.rightParam.param, r, d)} :: PV(n.rightParam.param, r, c) == PV(n.rightParam.param, r, d))
+//@ spec WFlitDef(n *syntaxQueryParamLiteral) bool = n != nil && len(n.literal) == 1 && wf(n.literal) && RO(n.literal) && off(n.literal) == 0 && elemAt(n.literal, 0) != emptyEntity && (forall r Val, A ArrVal, o, l, j {RH(n, r, A, o, l, j)} :: RH(n, r, A, o, l, j)) && (forall r Val, c Val {PV(n, r, c)} :: PV(n, r, c) == elemAt(n.literal, 0))
+//@ spec WFprootDef(n *syntaxQueryParamRoot) bool = n != nil && n.param != nil && WFnode(n.param) && 0 <= height(n.param) && height(n.param) < qheight(n) && (paramSingleQ(n) ==> chainSingle(n.param)) && (forall r Val, A ArrVal, o, l, j {RH(n, r, A, o, l, j)} :: RH(n, r, A, o, l, j) <==> Sel(n.param, r, r)) && (forall r Val, c Val {PV(n, r, c)} :: PV(n, r, c) == (Sel(n.param, r, r) ? First(n.param, r, r) : emptyEntity))
+//@ spec WFpcurDef(n *syntaxQueryParamCurrentRoot) bool = n != nil && n.param != nil && WFnode(n.param) && 0 <= height(n.param) && height(n.param) < qheight(n) && (forall r Val, A ArrVal, o, l, j {RH(n, r, A, o, l, j)} :: RH(n, r, A, o, l, j) <==> Sel(n.param, r, A[idxOf(o, j)])) && (forall r Val, c Val {PV(n, r, c)} :: PV(n, r, c) == (Sel(n.param, r, c) ? First(n.param, r, c) : emptyEntity))
 
-//@ spec WFdirectDef(c *syntaxCompareDirectEQ) bool = c != nil && c.syntaxTypeValidator != nil && WFval(c.syntaxTypeValidator) && vkind(c) == vkind(c.syntaxTypeValidator) && 1 <= vkind(c) && vkind(c) <= 4 && 0 <= vrank(c.syntaxTypeValidator) && vrank(c.syntaxTypeValidator) < vrank(c)
-//@ spec WFdeepDef(c *syntaxCompareDeepEQ) bool = c != nil && vkind(c) == 0 && WFval(c.syntaxBasicAnyValueTypeValidator) && vkind(c.syntaxBasicAnyValueTypeValidator) == 0
-//@ spec WFgeDef(c *syntaxCompareGE) bool = c != nil && vkind(c) == 1 && WFval(c.syntaxBasicNumericTypeValidator) && vkind(c.syntaxBasicNumericTypeValidator) == 1
-//@ spec WFgtDef(c *syntaxCompareGT) bool = c != nil && vkind(c) == 1 && WFval(c.syntaxBasicNumericTypeValidator) && vkind(c.syntaxBasicNumericTypeValidator) == 1
-//@ spec WFleDef(c *syntaxCompareLE) bool = c != nil && vkind(c) == 1 && WFval(c.syntaxBasicNumericTypeValidator) && vkind(c.syntaxBasicNumericTypeValidator) == 1
-//@ spec WFltDef(c *syntaxCompareLT) bool = c != nil && vkind(c) == 1 && WFval(c.syntaxBasicNumericTypeValidator) && vkind(c.syntaxBasicNumericTypeValidator) == 1
-//@ spec WFregexDef(c *syntaxCompareRegex) bool = c != nil && vkind(c) == 3 && c.regex != nil && WFval(c.syntaxBasicStringTypeValidator) && vkind(c.syntaxBasicStringTypeValidator) == 3
+//@ spec WFdirectDef(c *syntaxCompareDirectEQ) bool = c != nil && c.syntaxTypeValidator != nil && WFval(c.syntaxTypeValidator) && vkind(c) == vkind(c.syntaxTypeValidator) && 1 <= vkind(c) && vkind(c) <= 4 && 0 <= vrank(c.syntaxTypeValidator) && vrank(c.syntaxTypeValidator) < vrank(c) && (forall l Val, r Val {cmpRel(c, l, r)} :: cmpRel(c, l, r) <==> ifaceEq(l, r))
+//@ spec WFdeepDef(c *syntaxCompareDeepEQ) bool = c != nil && vkind(c) == 0 && WFval(c.syntaxBasicAnyValueTypeValidator) && vkind(c.syntaxBasicAnyValueTypeValidator) == 0 && (forall l Val, r Val {cmpRel(c, l, r)} :: cmpRel(c, l, r) <==> deepEq(l, r))
+//@ spec WFgeDef(c *syntaxCompareGE) bool = c != nil && vkind(c) == 1 && WFval(c.syntaxBasicNumericTypeValidator) && vkind(c.syntaxBasicNumericTypeValidator) == 1 && (forall l Val, r Val {cmpRel(c, l, r)} :: isType(l, float64) && isType(r, float64) ==> (cmpRel(c, l, r) <==> asType(l, float64) >= asType(r, float64)))
+//@ spec WFgtDef(c *syntaxCompareGT) bool = c != nil && vkind(c) == 1 && WFval(c.syntaxBasicNumericTypeValidator) && vkind(c.syntaxBasicNumericTypeValidator) == 1 && (forall l Val, r Val {cmpRel(c, l, r)} :: isType(l, float64) && isType(r, float64) ==> (cmpRel(c, l, r) <==> asType(l, float64) > asType(r, float64)))
+//@ spec WFleDef(c *syntaxCompareLE) bool = c != nil && vkind(c) == 1 && WFval(c.syntaxBasicNumericTypeValidator) && vkind(c.syntaxBasicNumericTypeValidator) == 1 && (forall l Val, r Val {cmpRel(c, l, r)} :: isType(l, float64) && isType(r, float64) ==> (cmpRel(c, l, r) <==> asType(l, float64) <= asType(r, float64)))
+//@ spec WFltDef(c *syntaxCompareLT) bool = c != nil && vkind(c) == 1 && WFval(c.syntaxBasicNumericTypeValidator) && vkind(c.syntaxBasicNumericTypeValidator) == 1 && (forall l Val, r Val {cmpRel(c, l, r)} :: isType(l, float64) && isType(r, float64) ==> (cmpRel(c, l, r) <==> asType(l, float64) < asType(r, float64)))
+//@ spec WFregexDef(c *syntaxCompareRegex) bool = c != nil && vkind(c) == 3 && c.regex != nil && WFval(c.syntaxBasicStringTypeValidator) && vkind(c.syntaxBasicStringTypeValidator) == 3 && (forall l Val, r Val {cmpRel(c, l, r)} :: isType(l, string) ==> (cmpRel(c, l, r) <==> regexMatch(c.regex, asType(l, string))))
 
 //@ extern (json.Number).Float64
 //@   ensures ret0 == numToF(n)
 //@   pure
 //@ extern reflect.DeepEqual
+//@   ensures ret == deepEq(x, y)
 //@   pure
 //@ extern (*regexp.Regexp).MatchString
+//@   ensures ret == regexMatch(re, s)
 //@   pure
 
 //@ template computeFrame
@@ -495,15 +504,15 @@ package jsonpath
 //@   ensures single: paramSingleQ(this) ==> ret != fullList
 //@   ensures one: (isType(this, *syntaxQueryParamLiteral) || isType(this, *syntaxQueryParamRoot)) ==> len(ret) == 1
 //@   ensures pv: paramSingleQ(this) ==> (forall j {elemAt(ret, j)} {PV(this, root, memberAt(currentList, j))} :: 0 <= j && j < len(currentList) ==> slotAt(ret, j) == PV(this, root, memberAt(currentList, j)))
-//@   ensures sem: forall j {elemAt(ret, j)} {QH(this, root, memberAt(currentList, j))} :: 0 <= j && j < len(currentList) ==> (holdsAt(ret, j) <==> QH(this, root, memberAt(currentList, j)))
+//@   ensures sem: forall j {elemAt(ret, j)} {RHof(this, root, currentList, j)} :: 0 <= j && j < len(currentList) ==> (holdsAt(ret, j) <==> RHof(this, root, currentList, j))
 //@   decreases 3*qheight(this) + 2
 
 //@ spec isKind(k int, v any) bool = v != emptyEntity && (k == 0 || (k == 1 && (isType(v, float64) || isType(v, json.Number))) || (k == 2 && isType(v, bool)) || (k == 3 && isType(v, string)) || (k == 4 && v == nil))
 //@ spec convSlot(k int, v any) any = !isKind(k, v) ? emptyEntity : ((k == 1 && isType(v, json.Number)) ? numToF(asType(v, json.Number)) : v)
 //@ spec cleanList(k int, s []interface{}) bool = forall i {elemAt(s, i)} :: off(s) <= i && i < off(s) + len(s) ==> convSlot(k, elemAt(s, i)) == elemAt(s, i)
 // loop invariants shared by the four validators (r = the hidden range counter)
-//@ spec valDone(k int, values []interface{}, r int) bool = forall i {old(elemAt(values, i))} :: off(values) <= i && i <= off(values) + r ==> elemAt(values, i) == convSlot(k, old(elemAt(values, i)))
-//@ spec valTodo(values []interface{}, r int) bool = forall i {old(elemAt(values, i))} :: off(values) + r < i && i < off(values) + len(values) ==> elemAt(values, i) == old(elemAt(values, i))
+//@ spec valDone(k int, values []interface{}, r int) bool = forall i {old(elemAt(values, i))} {elemAt(values, i)} :: off(values) <= i && i <= off(values) + r ==> elemAt(values, i) == convSlot(k, old(elemAt(values, i)))
+//@ spec valTodo(values []interface{}, r int) bool = forall i {old(elemAt(values, i))} {elemAt(values, i)} :: off(values) + r < i && i < off(values) + len(values) ==> elemAt(values, i) == old(elemAt(values, i))
 //@ spec valFound(k int, values []interface{}, r int) bool = exists i :: off(values) <= i && i <= off(values) + r && isKind(k, old(elemAt(values, i)))
 
 //@ template validateFrame
@@ -513,20 +522,29 @@ package jsonpath
 //@ interface syntaxComparator.validate
 //@   requires WFcmp(this) && (mine(values) || cleanList(vkind(this), values))
 //@   include validateFrame
-//@   ensures conv: forall i {old(elemAt(values, i))} :: off(values) <= i && i < off(values) + len(values) ==> elemAt(values, i) == convSlot(vkind(this), old(elemAt(values, i)))
+//@   ensures conv: forall i {old(elemAt(values, i))} {elemAt(values, i)} :: off(values) <= i && i < off(values) + len(values) ==> elemAt(values, i) == convSlot(vkind(this), old(elemAt(values, i)))
 //@   ensures found: ret <==> valFound(vkind(this), values, len(values) - 1)
+//@   ensures none: !ret ==> (forall i {old(elemAt(values, i))} {elemAt(values, i)} :: off(values) <= i && i < off(values) + len(values) ==> !isKind(vkind(this), old(elemAt(values, i))))
 //@   decreases vrank(this)
 
 //@ interface syntaxTypeValidator.validate
 //@   requires WFval(this) && (mine(values) || cleanList(vkind(this), values))
 //@   include validateFrame
-//@   ensures conv: forall i {old(elemAt(values, i))} :: off(values) <= i && i < off(values) + len(values) ==> elemAt(values, i) == convSlot(vkind(this), old(elemAt(values, i)))
+//@   ensures conv: forall i {old(elemAt(values, i))} {elemAt(values, i)} :: off(values) <= i && i < off(values) + len(values) ==> elemAt(values, i) == convSlot(vkind(this), old(elemAt(values, i)))
 //@   ensures found: ret <==> valFound(vkind(this), values, len(values) - 1)
+//@   ensures none: !ret ==> (forall i {old(elemAt(values, i))} {elemAt(values, i)} :: off(values) <= i && i < off(values) + len(values) ==> !isKind(vkind(this), old(elemAt(values, i))))
 //@   decreases vrank(this)
 
+//@ spec keepSlot(c any, v any, r any) any = (v != emptyEntity && cmpRel(c, v, r)) ? v : emptyEntity
+//@ spec cmpDone(c any, left []interface{}, right any, r int) bool = forall i {old(elemAt(left, i))} {elemAt(left, i)} :: off(left) <= i && i <= off(left) + r ==> elemAt(left, i) == keepSlot(c, old(elemAt(left, i)), right)
+//@ spec cmpTodo(left []interface{}, r int) bool = forall i {old(elemAt(left, i))} {elemAt(left, i)} :: off(left) + r < i && i < off(left) + len(left) ==> elemAt(left, i) == old(elemAt(left, i))
+//@ spec cmpFound(c any, left []interface{}, right any, r int) bool = exists i :: off(left) <= i && i <= off(left) + r && old(elemAt(left, i)) != emptyEntity && cmpRel(c, old(elemAt(left, i)), right)
 //@ interface syntaxComparator.comparator
 //@   requires WFcmp(this) && wf(left) && mine(left) && typedList(vkind(this), left) && okSlot(vkind(this), right) && right != emptyEntity
 //@   modifies elems(left)
+//@   ensures keep: cmpDone(this, left, right, len(left) - 1)
+//@   ensures found: ret <==> cmpFound(this, left, right, len(left) - 1)
+//@   ensures none: !ret ==> (forall i {old(elemAt(left, i))} {elemAt(left, i)} :: off(left) <= i && i < off(left) + len(left) && old(elemAt(left, i)) != emptyEntity ==> !cmpRel(this, old(elemAt(left, i)), right))
 
 //@ func (*syntaxBasicAnyValueTypeValidator).validate
 //@   props C03 C04 C05 C06 C10 C20
@@ -604,38 +622,58 @@ package jsonpath
 //@   props C03 C04 C05 C06 C10 C20
 //@   implements syntaxComparator.comparator
 //@   unfold WFcmp(this) ==> WFdirectDef(c)
-//@   loop 1 invariant mine(left) && typedList(vkind(this), left)
+//@   loop 1 invariant own: mine(left) && typedList(vkind(this), left)
+//@   loop 1 invariant done: cmpDone(this, left, right, rangeindex)
+//@   loop 1 invariant todo: cmpTodo(left, rangeindex)
+//@   loop 1 invariant found: hasValue <==> cmpFound(this, left, right, rangeindex)
 //@ func (*syntaxCompareDeepEQ).comparator
 //@   props C03 C04 C05 C06 C10 C20
 //@   implements syntaxComparator.comparator
 //@   unfold WFcmp(this) ==> WFdeepDef(c)
-//@   loop 1 invariant mine(left)
+//@   loop 1 invariant own: mine(left) && typedList(0, left)
+//@   loop 1 invariant done: cmpDone(this, left, right, rangeindex)
+//@   loop 1 invariant todo: cmpTodo(left, rangeindex)
+//@   loop 1 invariant found: hasValue <==> cmpFound(this, left, right, rangeindex)
 //@ func (*syntaxCompareGE).comparator
 //@   props C03 C04 C05 C06 C10 C20
 //@   implements syntaxComparator.comparator
 //@   unfold WFcmp(this) ==> WFgeDef(c)
-//@   loop 1 invariant mine(left) && typedList(1, left)
+//@   loop 1 invariant own: mine(left) && typedList(1, left)
+//@   loop 1 invariant done: cmpDone(this, left, right, rangeindex)
+//@   loop 1 invariant todo: cmpTodo(left, rangeindex)
+//@   loop 1 invariant found: hasValue <==> cmpFound(this, left, right, rangeindex)
 //@ func (*syntaxCompareGT).comparator
 //@   props C03 C04 C05 C06 C10 C20
 //@   implements syntaxComparator.comparator
 //@   unfold WFcmp(this) ==> WFgtDef(c)
-//@   loop 1 invariant mine(left) && typedList(1, left)
+//@   loop 1 invariant own: mine(left) && typedList(1, left)
+//@   loop 1 invariant done: cmpDone(this, left, right, rangeindex)
+//@   loop 1 invariant todo: cmpTodo(left, rangeindex)
+//@   loop 1 invariant found: hasValue <==> cmpFound(this, left, right, rangeindex)
 //@ func (*syntaxCompareLE).comparator
 //@   props C03 C04 C05 C06 C10 C20
 //@   implements syntaxComparator.comparator
 //@   unfold WFcmp(this) ==> WFleDef(c)
-//@   loop 1 invariant mine(left) && typedList(1, left)
+//@   loop 1 invariant own: mine(left) && typedList(1, left)
+//@   loop 1 invariant done: cmpDone(this, left, right, rangeindex)
+//@   loop 1 invariant todo: cmpTodo(left, rangeindex)
+//@   loop 1 invariant found: hasValue <==> cmpFound(this, left, right, rangeindex)
 //@ func (*syntaxCompareLT).comparator
 //@   props C03 C04 C05 C06 C10 C20
 //@   implements syntaxComparator.comparator
 //@   unfold WFcmp(this) ==> WFltDef(c)
-//@   loop 1 invariant mine(left) && typedList(1, left)
+//@   loop 1 invariant own: mine(left) && typedList(1, left)
+//@   loop 1 invariant done: cmpDone(this, left, right, rangeindex)
+//@   loop 1 invariant todo: cmpTodo(left, rangeindex)
+//@   loop 1 invariant found: hasValue <==> cmpFound(this, left, right, rangeindex)
 //@ func (*syntaxCompareRegex).comparator
 //@   props C03 C04 C05 C06 C10 C20
 //@   implements syntaxComparator.comparator
 //@   unfold WFcmp(this) ==> WFregexDef(r)
-//@   loop 1 invariant mine(left) && typedList(3, left)
-
+//@   loop 1 invariant own: mine(left) && typedList(3, left)
+//@   loop 1 invariant done: cmpDone(this, left, arg1, rangeindex)
+//@   loop 1 invariant todo: cmpTodo(left, rangeindex)
+//@   loop 1 invariant found: hasValue <==> cmpFound(this, left, arg1, rangeindex)
 //@ func (*syntaxQueryParamLiteral).compute
 //@   props C03 C04 C05 C06 C20
 //@   implements syntaxQuery.compute
@@ -670,15 +708,20 @@ package jsonpath
 //@   props C03 C04 C05 C06 C09 C10 C20
 //@   implements syntaxQuery.compute
 //@   unfold WFquery(this) ==> WFcmpqDef(q)
+// stepping stones (proved where they stand, then assumed): what the operand lists hold after each call
+//@   after validate#1 assert left1: forall j {PV(q.leftParam.param, root, memberAt(currentList, j))} {elemAt(leftValues, j)} :: 0 <= j && j < len(currentList) ==> slotAt(leftValues, j) == opL(q, root, memberAt(currentList, j))
+//@   after validate#2 assert left2: forall j {PV(q.leftParam.param, root, memberAt(currentList, j))} {elemAt(leftValues, j)} :: 0 <= j && j < len(currentList) ==> slotAt(leftValues, j) == opL(q, root, memberAt(currentList, j))
+//@   after validate#2 assert right2: len(rightValues) == 1 && off(rightValues) == 0 && (forall j {PV(q.rightParam.param, root, memberAt(currentList, j))} :: 0 <= j && j < len(currentList) ==> elemAt(rightValues, 0) == opR(q, root, memberAt(currentList, j)))
+//@   after comparator#1 assert kept: forall j {PV(q.leftParam.param, root, memberAt(currentList, j))} {elemAt(leftValues, j)} :: 0 <= j && j < len(currentList) ==> slotAt(leftValues, j) == keepSlot(q.comparator, opL(q, root, memberAt(currentList, j)), opR(q, root, memberAt(currentList, j)))
 
 //@ func (*syntaxLogicalAnd).compute
 //@   props C03 C04 C05 C06 C09 C20
 //@   implements syntaxQuery.compute
 //@   unfold WFquery(this) ==> WFandDef(l)
 //@   loop 1 invariant lists: wf(leftComputedList) && mine(leftComputedList) && fresh(leftComputedList) && off(leftComputedList) == 0 && off(rightComputedList) == 0 && len(leftComputedList) == len(currentList) && len(rightComputedList) == len(currentList) && len(currentList) != 1 && wf(rightComputedList) && arr(leftComputedList) != arr(rightComputedList)
-//@   loop 1 invariant right: forall j {elemAt(rightComputedList, j)} :: 0 <= j && j < len(currentList) ==> ((elemAt(rightComputedList, j) != emptyEntity) <==> QH(l.rightQuery, root, memberAt(currentList, j)))
-//@   loop 1 invariant done: forall j {elemAt(leftComputedList, j)} {QH(l.leftQuery, root, memberAt(currentList, j))} :: 0 <= j && j <= rangeindex ==> ((elemAt(leftComputedList, j) != emptyEntity) <==> (QH(l.leftQuery, root, memberAt(currentList, j)) && QH(l.rightQuery, root, memberAt(currentList, j))))
-//@   loop 1 invariant todo: forall j {elemAt(leftComputedList, j)} :: rangeindex < j && j < len(currentList) ==> ((elemAt(leftComputedList, j) != emptyEntity) <==> QH(l.leftQuery, root, memberAt(currentList, j)))
+//@   loop 1 invariant right: forall j {elemAt(rightComputedList, j)} :: 0 <= j && j < len(currentList) ==> ((elemAt(rightComputedList, j) != emptyEntity) <==> RHof(l.rightQuery, root, currentList, j))
+//@   loop 1 invariant done: forall j {elemAt(leftComputedList, j)} {RHof(l.leftQuery, root, currentList, j)} :: 0 <= j && j <= rangeindex ==> ((elemAt(leftComputedList, j) != emptyEntity) <==> (RHof(l.leftQuery, root, currentList, j) && RHof(l.rightQuery, root, currentList, j)))
+//@   loop 1 invariant todo: forall j {elemAt(leftComputedList, j)} :: rangeindex < j && j < len(currentList) ==> ((elemAt(leftComputedList, j) != emptyEntity) <==> RHof(l.leftQuery, root, currentList, j))
 //@   loop 1 invariant none: !hasValue ==> (forall j {elemAt(leftComputedList, j)} :: 0 <= j && j <= rangeindex ==> elemAt(leftComputedList, j) == emptyEntity)
 
 //@ func (*syntaxLogicalOr).compute
@@ -686,17 +729,17 @@ package jsonpath
 //@   implements syntaxQuery.compute
 //@   unfold WFquery(this) ==> WForDef(l)
 //@   loop 1 invariant lists: wf(leftComputedList) && mine(leftComputedList) && fresh(leftComputedList) && off(leftComputedList) == 0 && off(rightComputedList) == 0 && len(leftComputedList) == len(currentList) && len(rightComputedList) == len(currentList) && len(currentList) != 1 && wf(rightComputedList) && arr(leftComputedList) != arr(rightComputedList)
-//@   loop 1 invariant right: forall j {elemAt(rightComputedList, j)} :: 0 <= j && j < len(currentList) ==> ((elemAt(rightComputedList, j) != emptyEntity) <==> QH(l.rightQuery, root, memberAt(currentList, j)))
-//@   loop 1 invariant done: forall j {elemAt(leftComputedList, j)} {QH(l.leftQuery, root, memberAt(currentList, j))} :: 0 <= j && j <= rangeindex ==> ((elemAt(leftComputedList, j) != emptyEntity) <==> (QH(l.leftQuery, root, memberAt(currentList, j)) || QH(l.rightQuery, root, memberAt(currentList, j))))
-//@   loop 1 invariant todo: forall j {elemAt(leftComputedList, j)} :: rangeindex < j && j < len(currentList) ==> ((elemAt(leftComputedList, j) != emptyEntity) <==> QH(l.leftQuery, root, memberAt(currentList, j)))
+//@   loop 1 invariant right: forall j {elemAt(rightComputedList, j)} :: 0 <= j && j < len(currentList) ==> ((elemAt(rightComputedList, j) != emptyEntity) <==> RHof(l.rightQuery, root, currentList, j))
+//@   loop 1 invariant done: forall j {elemAt(leftComputedList, j)} {RHof(l.leftQuery, root, currentList, j)} :: 0 <= j && j <= rangeindex ==> ((elemAt(leftComputedList, j) != emptyEntity) <==> (RHof(l.leftQuery, root, currentList, j) || RHof(l.rightQuery, root, currentList, j)))
+//@   loop 1 invariant todo: forall j {elemAt(leftComputedList, j)} :: rangeindex < j && j < len(currentList) ==> ((elemAt(leftComputedList, j) != emptyEntity) <==> RHof(l.leftQuery, root, currentList, j))
 
 //@ func (*syntaxLogicalNot).compute
 //@   props C03 C04 C05 C06 C09 C20
 //@   implements syntaxQuery.compute
 //@   unfold WFquery(this) ==> WFnotDef(l)
 //@   loop 1 invariant lists: wf(computedList) && mine(computedList) && fresh(computedList) && off(computedList) == 0 && len(computedList) == len(currentList) && len(currentList) != 1
-//@   loop 1 invariant done: forall j {elemAt(computedList, j)} {QH(l.query, root, memberAt(currentList, j))} :: 0 <= j && j <= rangeindex ==> ((elemAt(computedList, j) != emptyEntity) <==> !QH(l.query, root, memberAt(currentList, j)))
-//@   loop 1 invariant todo: forall j {elemAt(computedList, j)} :: rangeindex < j && j < len(currentList) ==> ((elemAt(computedList, j) != emptyEntity) <==> QH(l.query, root, memberAt(currentList, j)))
+//@   loop 1 invariant done: forall j {elemAt(computedList, j)} {RHof(l.query, root, currentList, j)} :: 0 <= j && j <= rangeindex ==> ((elemAt(computedList, j) != emptyEntity) <==> !RHof(l.query, root, currentList, j))
+//@   loop 1 invariant todo: forall j {elemAt(computedList, j)} :: rangeindex < j && j < len(currentList) ==> ((elemAt(computedList, j) != emptyEntity) <==> RHof(l.query, root, currentList, j))
 //@   loop 1 invariant none: !hasValue ==> (forall j {elemAt(computedList, j)} :: 0 <= j && j <= rangeindex ==> elemAt(computedList, j) == emptyEntity)
 
 //@ func (*syntaxFilterQualifier).retrieve
